@@ -656,7 +656,8 @@ func init() {
 					L.reg.Insert(lv, cf.LocalBase)
 				}
 				// +inline-call L.initCallFrame cf
-				// +inline-call L.reg.CopyRange base RA -1 reg.Top()-RA-1
+				// the frame occupies RA .. Top-1: Top-RA registers (the last one may hold a local, e.g. the arg table)
+				// +inline-call L.reg.CopyRange base RA -1 reg.Top()-RA
 				cf.Base = base
 				cf.LocalBase = base + (cf.LocalBase - lbase + 1)
 			}
